@@ -35,12 +35,12 @@ func c11Payloads() []c11Payload {
 	g := enc(good)
 	return []c11Payload{
 		{"valid", g, nil, good},
-		{"validVD", g, good, good},              // locally published: ValidatorData carries the header
-		{"badValidate", enc(bad), nil, nil},     // decodes, Validate fails
-		{"badValidateVD", enc(bad), bad, nil},   // locally published header that fails Validate
-		{"height0", enc(h0), nil, nil},          // Validate fails
-		{"noChain", enc(noChain), nil, nil},     // Validate fails
-		{"empty", []byte{}, nil, nil},           // undecodable
+		{"validVD", g, good, good},            // locally published: ValidatorData carries the header
+		{"badValidate", enc(bad), nil, nil},   // decodes, Validate fails
+		{"badValidateVD", enc(bad), bad, nil}, // locally published header that fails Validate
+		{"height0", enc(h0), nil, nil},        // Validate fails
+		{"noChain", enc(noChain), nil, nil},   // Validate fails
+		{"empty", []byte{}, nil, nil},         // undecodable
 		{"garbage", []byte{0xde, 0xad, 0xbe, 0xef, 0x7b}, nil, nil},
 		{"truncated", g[:len(g)/2], nil, nil},
 		{"unknownField", []byte(`{"c":"A","h":7,"t":1,"zzz":1}`), nil, nil},
